@@ -306,7 +306,7 @@ def _check_rows(E, rows):
 
 def worker(case, seed):
     pm, md, fd, uc, ap, fb = _mods()
-    E = Engine(seed=seed, max_paths=4000, query_timeout_ms=120000)
+    E = Engine(seed=seed, max_paths=4000, query_timeout_ms=case.get("query_timeout_ms", 120000))
     E.div0_mode = "numpy"
     real_inputs(case["country"])
     saved = fd.Food.conversions.__dict__.copy()
@@ -440,6 +440,10 @@ def main(tier, seed, only=None):
         r3.append(dict(kind="round1", country=c, N=12, herd=["chicken", "meat_cattle", "milk_cattle"]))
         r3.append(dict(kind="round2", country=c, N=12, herd=[]))
         r3.append(dict(kind="round2", country=c, N=24, NS=2, herd=["meat_cattle", "milk_cattle"]))
+    if thorough:
+        # the bump's branch conditions are non-linear: one query came back unknown at 120 s when other jobs shared the machine
+        r3 = [dict(c, query_timeout_ms=400000) for c in r3]
+        sup = [dict(c, query_timeout_ms=400000) for c in sup]
     if thorough:
         pass      # a 4-herd final round does not finish in 25 min even at 2 months (the bump forks ~10 ways per month and herd): the thorough tier adds a country instead
     stubs = STUBS + ["CalculateFeedAndMeat (the herd simulation) replaced by a stub with symbolic monthly slaughter, herd size and feed use; its real get_meat_produced / get_total_milk_bearing_animals run",
